@@ -171,7 +171,17 @@ const maxStatesPerBlock = 12
 // AnalyzeLocks runs the forward lock-state dataflow over fn. Closures and
 // goroutines start with the empty state.
 func AnalyzeLocks(fn *ssa.Function) *LockState {
-	ls := analyzeLocks(fn, nil)
+	// a function literal that is only ever called, synchronously, at one place
+	// (`func() {...}()`, or a literal handed to a helper that was inlined) runs
+	// under the locks held there
+	var inherited []Held
+	if site := soleDirectCall(fn); site != nil {
+		inherited = AnalyzeLocks(site.Parent()).HeldAt(NodeOf(site))
+	}
+	ls := analyzeLocks(fn, inherited)
+	if len(inherited) > 0 {
+		ls.EntryHeld = inherited
+	}
 	if len(ls.unheld) == 0 {
 		return ls
 	}
@@ -198,9 +208,55 @@ func AnalyzeLocks(fn *ssa.Function) *LockState {
 			entry = append(entry, h)
 		}
 	}
-	ls2 := analyzeLocks(fn, entry)
-	ls2.EntryHeld = entry
+	ls2 := analyzeLocks(fn, append(append([]Held{}, inherited...), entry...))
+	ls2.EntryHeld = append(append([]Held{}, inherited...), entry...)
 	return ls2
+}
+
+// soleDirectCall returns the only use of a function literal when that use is
+// a plain call (not go, not defer) in its parent.
+func soleDirectCall(fn *ssa.Function) *ssa.Call {
+	parent := fn.Parent()
+	if parent == nil {
+		return nil
+	}
+	isFn := func(v ssa.Value) bool {
+		if v == ssa.Value(fn) {
+			return true
+		}
+		mc, ok := v.(*ssa.MakeClosure)
+		return ok && mc.Fn == ssa.Value(fn)
+	}
+	var site *ssa.Call
+	n, others := 0, 0
+	WithAnon(parent, func(g *ssa.Function) {
+		AllInstrs(g, func(_ Node, in ssa.Instruction) {
+			if c, ok := in.(*ssa.Call); ok && isFn(c.Call.Value) {
+				n++
+				if g == parent {
+					site = c
+				}
+				for _, a := range c.Call.Args {
+					if isFn(a) {
+						others++
+					}
+				}
+				return
+			}
+			if _, isMC := in.(*ssa.MakeClosure); isMC {
+				return
+			}
+			for _, op := range in.Operands(nil) {
+				if *op != nil && isFn(*op) {
+					others++
+				}
+			}
+		})
+	})
+	if n != 1 || others != 0 {
+		return nil
+	}
+	return site
 }
 
 func analyzeLocks(fn *ssa.Function, entry []Held) *LockState {
